@@ -38,7 +38,8 @@ ASSUMPTIONS = ['data, links and selections do not change after set-up (the state
                'image planes are read through ImageLayerState / ImageSubsetLayerState.get_sliced_data on a stand-alone ImageViewerState (no matplotlib viewer)', 'sampling, not proof']
 PROBES = ['cache_hit_same_request', 'cache_after_other_bounds', 'cache_after_other_attribute', 'cache_after_other_dataset', 'scalar_bound_changed',
           'wholly_outside', 'partly_outside', 'halfway_sample', 'mask_request', 'broadcast_dimension', 'permuted_axes', 'negative_scale',
-          'unlinked_axis_incompatible', 'same_dataset_request', 'image_plane_read', 'image_slice_changed']
+          'unlinked_axis_incompatible', 'same_dataset_request', 'image_plane_read', 'image_slice_changed',
+          'reference_with_sheared_world_coordinates', 'linked_through_world_axis', 'temporary_selection_requested']
 
 WEIGHTS = {'req': 10, 'repeat': 3}
 
@@ -48,6 +49,13 @@ def generate(rng, cfg, guards):
     ops = []
     rshape = rng.pick([(4, 5), (3, 4), (3, 4, 5), (2, 3, 4), (5, 3)])
     ops.append(['ref', list(rshape), rng.randrange(10000)])
+    world = rng.chance(0.3)
+    if world:
+        # the reference dataset has non-separable affine world coordinates (integer shear + offset); sources may be linked
+        # through its world axes instead of its pixel axes
+        kk = rng.randrange(len(rshape))
+        ii = rng.pick([i for i in range(len(rshape)) if i != kk])
+        ops.append(['refcoords', kk, ii, rng.pick([1, -1, 2]), [rng.pick([0, 0, 1, -1]) for _ in rshape]])
     for _ in range(rng.randrange(1, 3)):
         sshape = rng.pick([(4,), (6,), (3, 4), (5, 3), (2, 3), (2, 3, 4), (3, 2, 2)])
         maps = []
@@ -55,7 +63,7 @@ def generate(rng, cfg, guards):
             if rng.chance(0.07):
                 maps.append(None)
             else:
-                maps.append([rng.randrange(len(rshape)), rng.pick([1, 1, 1, 2, -1]), rng.randrange(-2, 4)])
+                maps.append([rng.randrange(len(rshape)), rng.pick([1, 1, 1, 2, -1]), rng.randrange(-2, 4), world and rng.chance(0.7)])
         ops.append(['src', list(sshape), rng.randrange(10000), maps])
     for _ in range(rng.randrange(1, 4)):
         ops.append(['state', rng.pick(['ineq', 'ineq', 'pix', 'mask', 'slice', 'and']), rng.randrange(8), rng.randrange(-2, 9) + 0.5, rng.randrange(1000)])
@@ -84,9 +92,25 @@ def generate(rng, cfg, guards):
             else:
                 lo = rng.randrange(-1, 3)
                 bounds.append([lo, lo + rng.randrange(1, 4), rng.randrange(2, 6)])
+        if rng.chance(0.12):
+            # what an image layer does when its selection is replaced: the same plane under the same cache id for a selection
+            # object that did not exist before, the previous one having been dropped
+            hsrc, cid_ = rng.randrange(4), rng.pick(['A', 'A', 'B'])
+            for _ in range(rng.randrange(2, 4)):
+                ops.append(['req', hsrc, 1, bounds, 'tmp', rng.randrange(-2, 9) + 0.5, cid_, True])
+            continue
         ops.append(['req', rng.randrange(4), rng.randrange(4), bounds, rng.pick(['cid', 'cid', 'mask']), rng.randrange(8),
                     rng.pick([None, 'A', 'A', 'B']), rng.chance(0.85)])
     return {'knobs': {'guards': list(guards), 'prop': PROP}, 'ops': ops}
+
+
+def unit(j, n):
+    """Source coordinate = reference pixel coordinate j, as a linear form (coefficients over the reference axes, constant)."""
+    return (tuple(1.0 if i == j else 0.0 for i in range(n)), 0.0)
+
+
+def used_axes(ms):
+    return set(i for m in ms if m is not None for i, c in enumerate(m[0]) if c != 0)
 
 
 def affine(a, b):
@@ -125,6 +149,8 @@ def execute(case, res):
     history = {}        # cache id -> list of request descriptors
     image = {}
     reqs = []
+    refworld = {}
+    dead_ids = set()
     for op in case['ops']:
         k = op[0]
         res.nops += 1
@@ -134,7 +160,21 @@ def execute(case, res):
             d.add_component(W.values(op[2] + 1, tuple(op[1]), 'intdtype'), 'b')
             datasets.append(d)
             dc.append(d)
-            maps[id(d)] = [(j, 1, 0) for j in range(d.ndim)]
+            maps[id(d)] = [unit(j, d.ndim) for j in range(d.ndim)]
+        elif k == 'refcoords':
+            from glue.core.coordinates import AffineCoordinates
+            ref = datasets[0]
+            n = ref.ndim
+            A = np.eye(n)
+            A[op[1] % n, op[2] % n] = op[3]
+            t = np.array(op[4][:n], dtype=float)
+            # glue wants the augmented matrix in (x, y, ...) order, the reverse of the numpy axis order
+            M = np.eye(n + 1)
+            M[:n, :n] = A[::-1, ::-1]
+            M[:n, n] = t[::-1]
+            ref.coords = AffineCoordinates(M)
+            refworld.update(A=A, t=t)
+            res.probe('reference_with_sheared_world_coordinates')
         elif k == 'src':
             if not datasets:
                 continue
@@ -150,8 +190,14 @@ def execute(case, res):
                     ms.append(None)
                     continue
                 rax, a, b = m[0] % ref.ndim, m[1], m[2]
-                ms.append((rax, a, b))
-                dc.add_link(ComponentLink([ref.pixel_component_ids[rax]], d.pixel_component_ids[j], using=affine(a, b), inverse=affine_inv(a, b)))
+                if len(m) > 3 and m[3] and refworld:
+                    # linked through world axis rax of the reference: x_src = a * world_rax(p) + b
+                    ms.append((tuple(a * refworld['A'][rax]), a * refworld['t'][rax] + b))
+                    dc.add_link(ComponentLink([ref.world_component_ids[rax]], d.pixel_component_ids[j], using=affine(a, b), inverse=affine_inv(a, b)))
+                    res.probe('linked_through_world_axis')
+                else:
+                    ms.append((tuple(a * np.eye(ref.ndim)[rax]), b))
+                    dc.add_link(ComponentLink([ref.pixel_component_ids[rax]], d.pixel_component_ids[j], using=affine(a, b), inverse=affine_inv(a, b)))
                 if rax != j:
                     res.probe('permuted_axes')
                 if a < 0:
@@ -238,7 +284,7 @@ def execute(case, res):
                     full = fn(d)
                     invalid_value = False
                 exp = model(d, ref, maps, bounds, full, invalid_value, res)
-                used = set(m[0] for m in (maps[id(d)] if d is not ref else [(j, 1, 0) for j in range(ref.ndim)]) if m is not None)
+                used = used_axes(maps[id(d)] if d is not ref else [unit(j, ref.ndim) for j in range(ref.ndim)])
                 try:
                     got = ls.get_sliced_data()
                     st_ = 'ok'
@@ -255,9 +301,12 @@ def execute(case, res):
                     continue
                 if not ({xa, ya} <= used):
                     # an axis of the plane does not reach the layer's dataset: the viewer asks for no broadcasting
-                    if st_ == 'ok' and d is not ref:
+                    if st_ == 'ok' and d is not ref and not refworld:
                         raise Violation('C16/image-plane-broadcast-not-refused', 'layer %s axes %s/%s used %s' % (d.label, xa, ya, sorted(used)))
-                    continue
+                    if st_ != 'ok' or d is ref:
+                        continue
+                    # coupled world axes: glue takes every pixel axis that shares a world axis as used (an over-approximation
+                    # the statement allows); what it returns is then compared like any other plane
                 if st_ != 'ok':
                     raise Violation('C16/image-plane-not-available/%s' % st_, 'layer %s axes x=%d y=%d slices %s' % (d.label, xa, ya, vs.slices))
                 if ya > xa:
@@ -277,6 +326,8 @@ def execute(case, res):
                 base = reqs[op[1] % len(reqs)]
                 alter = op[3] if len(op) > 3 else 'same'
                 new = ['req'] + base[1:6] + [op[2], base[7]]
+                if base[4] == 'tmp':
+                    alter = 'same'
                 if alter == 'src':
                     new[1] = base[1] + 1            # the same bounds asked of another dataset under the same cache id
                 elif alter == 'what':
@@ -287,6 +338,7 @@ def execute(case, res):
             if len(datasets) < 1:
                 continue
             reqs.append(list(op))
+            tmp_id = None
             src = datasets[op[1] % len(datasets)]
             ref = datasets[0] if op[2] % 4 else src          # mostly the reference frame, sometimes the source's own frame
             bounds = [tuple(b) if isinstance(b, list) else b for b in op[3][:ref.ndim]]
@@ -298,6 +350,24 @@ def execute(case, res):
                 full = np.asarray(src[cid], dtype=float)
                 invalid_value = np.nan
                 desc_what = ('cid', cid.label)
+            elif what == 'tmp':
+                # a selection object made for this request and dropped after it; the allocator is nudged to hand out the
+                # address of a selection that died earlier (possible only if nothing keeps that one alive)
+                thr = op[5]
+                hold = []
+                for _ in range(64):
+                    st = S.InequalitySubsetState(src.id['a'], thr, operator.gt)
+                    if not dead_ids or id(st) in dead_ids:
+                        break
+                    hold.append(st)
+                del hold
+                kwargs['subset_state'] = st
+                full = np.asarray(src['a']) > thr
+                invalid_value = False
+                desc_what = ('tmp', thr)
+                tmp_id = id(st)
+                st = None
+                res.probe('temporary_selection_requested')
             else:
                 mine = [x for x in states if x[2] is src]     # selections defined on the source dataset itself
                 if not mine:
@@ -323,6 +393,9 @@ def execute(case, res):
                     return 'crash:%s' % type(e).__name__, str(e)[:200]
 
             st0, plain = call(None)
+            if tmp_id is not None and cache_id is None:
+                kwargs.clear()
+                dead_ids.add(tmp_id)
             if st0.startswith('crash'):
                 raise Violation('C16/%s/%s' % (st0.replace(':', '/'), what), 'a valid request %s raised: %s' % (bounds, plain))
             desc = (id(src), id(ref), repr(bounds), desc_what, broadcast)
@@ -342,6 +415,9 @@ def execute(case, res):
                         if any(np.isscalar(x) and np.isscalar(y) and x != y for x, y in zip(lb, bounds)):
                             res.probe('scalar_bound_changed')
                 st1, cached = call(cache_id)
+                if tmp_id is not None:
+                    kwargs.clear()          # the caller drops its selection
+                    dead_ids.add(tmp_id)
                 if st1.startswith('crash'):
                     raise Violation('C16/%s-with-cache/%s' % (st1.replace(':', '/'), what), 'request %s with cache id %s raised: %s' % (bounds, cache_id, cached))
                 res.nchecks += 1
@@ -381,7 +457,7 @@ def model(src, ref, maps, bounds, full, invalid_value, res):
     acceptable values (more than one only where a source coordinate is exactly half-way between two pixels), or 'incompatible'."""
     import itertools
     if src is ref:
-        ms = [(j, 1, 0) for j in range(src.ndim)]
+        ms = [unit(j, src.ndim) for j in range(src.ndim)]
     else:
         ms = maps[id(src)]
         if any(m is None for m in ms):
@@ -393,8 +469,8 @@ def model(src, ref, maps, bounds, full, invalid_value, res):
     for idx in np.ndindex(*shape):
         p = [axes[i][idx[i]] for i in range(len(axes))]
         options = []
-        for j, (rax, a, b) in enumerate(ms):
-            x = a * p[rax] + b
+        for j, (coeffs, const) in enumerate(ms):
+            x = float(sum(c * p[i] for i, c in enumerate(coeffs) if c != 0) + const)
             fl = np.floor(x)
             if x - fl == 0.5:
                 res.probe('halfway_sample')
@@ -418,7 +494,7 @@ def model(src, ref, maps, bounds, full, invalid_value, res):
         res.probe('wholly_outside')
     elif outside:
         res.probe('partly_outside')
-    used = set(rax for rax, _, _ in ms)
+    used = used_axes(ms)
     if any(i not in used and isinstance(b, tuple) for i, b in enumerate(bounds)):
         res.probe('broadcast_dimension')
     sl = tuple(slice(None) if isinstance(b, tuple) else 0 for b in bounds)
